@@ -1204,3 +1204,43 @@ TABLE["C03"] += [
     N("values-insert-special-case-nested-tests",
       (PW, "            if method.name == 'insert' and cpp_class == 'gtsam::Values':", "            if cpp_class == 'gtsam::Values' and (method.name == 'insert'):")),
 ]
+_NS_SPLIT = "    top_module_namespaces = args.top_module_namespaces.split(\"::\")\n    if top_module_namespaces[0]:\n        top_module_namespaces = [''] + top_module_namespaces\n"
+_SUBMODS = "        submodules = []\n        for source in sources[1:]:\n            module_name = Path(source).stem\n            submodules.append(module_name)\n"
+TABLE["C16"] += [
+    B("pybind-global-namespace-prepended-unconditionally", {"Y6", "Y4"},
+      ("scripts/pybind_wrap.py", _NS_SPLIT, "    top_module_namespaces = ['']\n    if args.top_module_namespaces:\n        top_module_namespaces += args.top_module_namespaces.split(\"::\")\n")),
+    B("matlab-global-namespace-never-prepended", {"Y6", "Y4"},
+      ("scripts/matlab_wrap.py", "    if top_module_namespaces[0]:\n        top_module_namespaces = [''] + top_module_namespaces\n", "")),
+    N("pybind-namespace-option-normalised-by-prefix-test",
+      ("scripts/pybind_wrap.py", _NS_SPLIT, "    top_module_namespaces = args.top_module_namespaces.split(\"::\")\n    if not args.top_module_namespaces.startswith(\"::\") and args.top_module_namespaces:\n        top_module_namespaces = [''] + top_module_namespaces\n")),
+    N("pybind-namespace-option-stripped-then-prefixed",
+      ("scripts/pybind_wrap.py", _NS_SPLIT, "    top_module_namespaces = [c for c in args.top_module_namespaces.split(\"::\") if c]\n    top_module_namespaces = [''] + top_module_namespaces\n")),
+    B("main-file-taken-off-the-callers-list", {"Y5"},
+      (PW, "        main_module = sources[0]\n", "        main_module = sources.pop(0)\n"),
+      (PW, "        for source in sources[1:]:\n", "        for source in sources:\n")),
+    N("initialiser-names-by-comprehension",
+      (PW, _SUBMODS, "        submodules = [Path(source).stem for source in sources[1:]]\n")),
+    B("initialiser-names-include-the-main-file", {"Y2"},
+      (PW, _SUBMODS, "        submodules = [Path(source).stem for source in sources]\n")),
+]
+TABLE["C14"] += [
+    B("package-folder-created-after-an-existence-test-only", {"R9"},
+      (MW, "                if not osp.isdir(path_to_folder):\n                    try:\n                        os.makedirs(path_to_folder, exist_ok=True)\n                    except OSError:\n                        pass\n",
+       "                if not osp.isdir(path_to_folder):\n                    os.makedirs(path_to_folder)\n", 0)),
+    N("package-folder-created-with-exist-ok-only",
+      (MW, "                if not osp.isdir(path_to_folder):\n                    try:\n                        os.makedirs(path_to_folder, exist_ok=True)\n                    except OSError:\n                        pass\n",
+       "                os.makedirs(path_to_folder, exist_ok=True)\n", 1)),
+]
+TABLE["C15"] += [
+    B("boost-exports-walk-all-registered-classes", {"X2"},
+      (MW, "            if self.use_boost_serialization and \\\n                cls.original.namespaces() and self._has_serialization(cls):\n                boost_class_export_guid += 'BOOST_CLASS_EXPORT_GUID({}, \"{}\");\\n'.format(\n                    class_name_sep, class_name)\n", ""),
+      (MW, "        # Generate the typedef instances string\n", "        for cls in filter(self._has_serialization, self.classes):\n            if self.use_boost_serialization:\n                boost_class_export_guid += 'BOOST_CLASS_EXPORT_GUID({1}, \"{0}\");\\n'.format(*self.get_class_name(cls))\n        # Generate the typedef instances string\n")),
+]
+TABLE["C09"] += [
+    B("submodule-memory-keyed-by-leaf-name", {"W6"},
+      (PW, "                    and module_var not in self._submodule_vars:\n                self._submodule_vars.append(module_var)", "                    and namespace.name not in self._submodule_vars:\n                self._submodule_vars.append(namespace.name)")),
+]
+TABLE["C17"] += [
+    B("counter-key-from-the-class-without-template-arguments", {"Q8"},
+      (XP, "        self.print_if_verbose(f\"Extracting docs for {cpp_class}.{cpp_method}\")\n", "        cpp_class = cpp_class.split('<', 1)[0].strip()\n        self.print_if_verbose(f\"Extracting docs for {cpp_class}.{cpp_method}\")\n")),
+]
